@@ -336,6 +336,15 @@ class Program:
                     mod.const_exprs[st.target.id] = st.value
 
         index_body(mod.tree.body, mod.name, None, None, True)
+        # the module body as a pseudo-function "<module>" (start-up code, module-level call sites)
+        pseudo = ast.FunctionDef(
+            name="<module>",
+            args=ast.arguments(posonlyargs=[], args=[], kwonlyargs=[], kw_defaults=[], defaults=[]),
+            body=list(mod.tree.body) or [ast.Pass(lineno=1, col_offset=0)],
+            decorator_list=[], lineno=1, col_offset=0)
+        mf = FuncInfo(mod.name + ".<module>", pseudo, mod)
+        self.functions[mf.qualname] = mf
+        mod.module_func = mf
 
     def _abs_module(self, mod: ModuleInfo, name: Optional[str], level: int) -> str:
         if level == 0:
@@ -606,6 +615,13 @@ class Program:
                 return CallRes([init] if init else [], how="ctor:" + obj.qualname)
             if kind == "external":
                 return CallRes(external=obj, how="external")
+            if fn.id == "cls" and "classmethod" in fi.decorators and fi.cls is not None:
+                out = []
+                for c in [fi.cls] + fi.cls.all_subclasses():
+                    init = self.lookup_method(c, "__init__")
+                    if init is not None and init not in out:
+                        out.append(init)
+                return CallRes(out, how="ctor:cls")
             if fn.id in fi.params or (local_types and fn.id in local_types):
                 return CallRes(how="param-call")
             return CallRes(external=fn.id, how="builtin")
@@ -672,7 +688,35 @@ class Program:
             if cands:
                 return CallRes(list(cands), how="cha")
             return CallRes(external=(rd or "?") + "." + name, how="unknown-attr")
+        if isinstance(fn, ast.Subscript) and isinstance(fn.value, ast.Dict):
+            out = []
+            for v in fn.value.values:
+                dv = dotted(v)
+                if dv is None:
+                    continue
+                kind, obj = self.resolve_dotted(fi.module, dv, fi)
+                if kind == "class":
+                    init = self.lookup_method(obj, "__init__")
+                    if init is not None and init not in out:
+                        out.append(init)
+                elif kind == "func" and obj not in out:
+                    out.append(obj)
+            if out:
+                return CallRes(out, how="dict-dispatch")
         return CallRes(how="dynamic")
+
+    def dict_dispatch_classes(self, fi: FuncInfo, call: ast.Call) -> List[ClassInfo]:
+        fn = call.func
+        out = []
+        if isinstance(fn, ast.Subscript) and isinstance(fn.value, ast.Dict):
+            for v in fn.value.values:
+                dv = dotted(v)
+                if dv is None:
+                    continue
+                kind, obj = self.resolve_dotted(fi.module, dv, fi)
+                if kind == "class":
+                    out.append(obj)
+        return out
 
     def confirm_receiver_table(self) -> List[str]:
         """Check the assignments that justify RECEIVER_TABLE still exist.  Returns notes."""
